@@ -249,7 +249,12 @@ def ob_triggers(run, oid):
                         g = a
             o.check(g is not None, "Pool::add_block|notify_parent_certified|guard", "only when is_notar_fallback_or_stronger(parent_hash)", c.span)
         npk = ab.calls_to(SS + "::notify_parent_known")
-        o.check(bool(npk) and ab.always_followed_by(0, [c.bb for c in npk]), "Pool::add_block|notify_parent_known", "every registered block's parent becomes Known", ab.span)
+        # ... except a block whose slot lies below the pruning watermark (D28: the slot is decided, nothing is registered for it): the only
+        # region that may be left without the notification is the one behind `slot < first_unpruned_slot()`
+        wm = [bl["id"] for bl in ab.blocks if bl["id"] in ab.reach() and any(
+            a[0] == "lt" and a[2] is True and any(isinstance(x, tuple) and K.mentions_call(x, "first_unpruned_slot") for x in a[1]) for a in G.guard_atoms(ab, bl["id"], prog))]
+        o.check(bool(npk) and ab.always_followed_by(0, [c.bb for c in npk] + wm), "Pool::add_block|notify_parent_known",
+                "every registered block's parent becomes Known (blocks of decided slots, below the watermark, are not registered)", ab.span)
         reg = [c for c in ab.calls() if K.mentions_field(ab.operand_term(c.args[0]), "s2n_waiting_parent_cert", "PoolImpl")] if True else []
         o.check(bool(reg), "Pool::add_block|register-waiting", "otherwise the child is registered as waiting for the parent's certificate", ab.span)
 
